@@ -333,6 +333,9 @@ func childMain() {
 			if bound == 2 && ((tier == "thorough" && p > 1500) || (tier != "thorough" && p > 700)) {
 				bound = 1
 			}
+			if tier != "thorough" && p <= 220 {
+				bound = 2
+			}
 			if tier == "thorough" && p <= 150 {
 				bound = 3
 			}
